@@ -799,14 +799,47 @@ class Interp:
             g = gens[i]
             it = self.eval(g.iter, frame)
             if isinstance(it, SymRange):
-                raise OutOfReach("comprehension over a symbolic range")
+                raise _SymComp(it)
             for x in (it if not isinstance(it, dict) else list(it)):
                 f2 = Frame(frame.fn, frame.module, frame)
                 self.assign(g.target, x, f2)
                 if all(self.truth(self.eval(c, f2)) for c in g.ifs):
                     rec(i + 1, f2)
 
-        rec(0, fr)
+        try:
+            rec(0, fr)
+        except _SymComp as sc:
+            # [elt(i) for i in range(a, b)] with a symbolic bound: a list given by its closed form
+            if len(gens) != 1 or gens[0].ifs or sc.rng.step != 1 or not isinstance(gens[0].target, ast.Name):
+                raise OutOfReach("comprehension over a symbolic range (only the plain one-generator form is modelled)")
+            from .values import SymList
+            g = gens[0]
+            start = sc.rng.start
+
+            def entry_raw(j, g=g, fr=fr):
+                f2 = Frame(fr.fn, fr.module, fr)
+                f2.vars[g.target.id] = start + j
+                return self.eval(e.elt, f2)
+            n = sym.smax(sc.rng.stop - start, 0)
+            # obligations of the element expression are checked once, for a generic index in range ...
+            c = cur()
+            jg = SInt.var(c.fresh_name("jcomp"))
+            mark = len(c.path_hyps)
+            c.path_hyps.append(sym.as_z3bool(sand(jg >= 0, jg < n)))
+            try:
+                entry_raw(jg)
+            finally:
+                del c.path_hyps[mark:]
+
+            # ... and not again when the closed form is evaluated at other (model) indices
+            def entry(j):
+                c2 = cur()
+                c2.suppress = getattr(c2, "suppress", 0) + 1
+                try:
+                    return entry_raw(j)
+                finally:
+                    c2.suppress -= 1
+            return SymList(n, "comprehension", entry=entry)
         return out
 
     def compare(self, op, l, r):
@@ -917,6 +950,11 @@ class Interp:
                 kwargs[k.arg] = self.eval(k.value, fr)
         self._where(e, fr)
         return self.call(f, args, kwargs)
+
+
+class _SymComp(Exception):
+    def __init__(self, rng):
+        self.rng = rng
 
 
 class _LazyGlobal:
